@@ -164,13 +164,14 @@ def WF (par : Nat → Nat) (pool : List Blk) : Prop :=
 structure Inv (par : Nat → Nat) (s : Pool) : Prop where
   wf : WF par s.pool
   nodup : (s.pool.map (·.id)).Nodup
+  leadersNodup : s.leaders.Nodup
   leaders : LeadersInv s
 
 theorem pooled_iff {pool : List Blk} {h : Nat} : pooled pool h = true ↔ ∃ b, b ∈ pool ∧ b.id = h := by
   simp [pooled, List.any_eq_true]
 
 theorem Inv.empty (par : Nat → Nat) : Inv par {} := by
-  refine ⟨?_, ?_, ?_⟩
+  refine ⟨?_, ?_, List.nodup_nil, ?_⟩
   · intro b h; cases h
   · exact List.nodup_nil
   · intro p
@@ -181,7 +182,7 @@ theorem Inv.empty (par : Nat → Nat) : Inv par {} := by
 theorem Inv.insert {par : Nat → Nat} (hpar : ∀ i, par i ≠ i) {s : Pool} (h : Inv par s) {b : Blk}
     (hb : b.parent = par b.id) : Inv par (CkbVerif.Orphan.insert s b) := by
   have hne : b.parent ≠ b.id := by rw [hb]; exact hpar _
-  refine ⟨?_, ?_, ?_⟩
+  refine ⟨?_, ?_, ?_, ?_⟩
   · intro c hc
     simp only [CkbVerif.Orphan.insert, List.mem_cons, List.mem_filter] at hc
     rcases hc with hc | hc
@@ -195,6 +196,16 @@ theorem Inv.insert {par : Nat → Nat} (hpar : ∀ i, par i ≠ i) {s : Pool} (h
       simp only [bne_iff_ne, ne_eq] at this
       exact this
     · exact List.Nodup.sublist (List.Sublist.map _ List.filter_sublist) h.nodup
+  · have hl1 : (s.leaders.filter (fun h => h != b.id)).Nodup :=
+      List.Nodup.sublist List.filter_sublist h.leadersNodup
+    simp only [CkbVerif.Orphan.insert]
+    split
+    · exact hl1
+    · split
+      · exact hl1
+      · rename_i hc
+        rw [List.nodup_cons]
+        exact ⟨by simpa using hc, hl1⟩
   · intro p
     have hL := h.leaders
     -- children / pooled after the insert
@@ -298,7 +309,7 @@ theorem Inv.removeByParent {par : Nat → Nat} {s : Pool} (h : Inv par s) (p : N
     Inv par (CkbVerif.Orphan.removeByParent s p).1 := by
   by_cases hp : p ∈ s.leaders
   · obtain ⟨_, a2, a3⟩ := removeByParent_leader hp
-    refine ⟨?_, ?_, ?_⟩
+    refine ⟨?_, ?_, ?_, ?_⟩
     · intro b hb; exact h.wf b ((a2 b).mp hb).1
     · -- ids stay distinct
       have hc : s.leaders.contains p = true := by simpa using hp
@@ -308,6 +319,7 @@ theorem Inv.removeByParent {par : Nat → Nat} {s : Pool} (h : Inv par s) (p : N
         exact ((perm.map (·.id)).nodup_iff).mpr (by simpa using h.nodup)
       rw [List.map_append] at this
       exact (List.nodup_append.mp this).2.1
+    · rw [a3]; exact List.Nodup.sublist List.filter_sublist h.leadersNodup
     · intro r
       rw [a3]
       simp only [List.mem_filter, bne_iff_ne, ne_eq]
